@@ -34,4 +34,32 @@ CONTRACTS = {
         'ensures': ['result._numvar == n', 'clen(result._clauses) == m', 'cmaxabs(result._clauses) <= n', 'not chaszero(result._clauses)',
                     'k <= n', 'k >= 0', 'n >= 0', 'm >= 0'],
     },
+    # ---- random k-XOR: the same shape over the parity sampler
+    ('cnfgen/families/randomkxor.py', 'sample_parities'): {
+        'assumed': 'sampler contract: exactly m parities (variables 1..n, no zero, right-hand side 0/1), or ValueError iff fewer than m are '
+                   'compatible with the planted assignments; decided by the bounded tier of C13',
+        'params': {'k': 'int', 'n': 'int', 'm': 'int', 'planted_assignments': 'any'},
+        'requires': ['0 <= k', 'k <= n', 'm >= 0'],
+        'raises': {'ValueError': 'm > navail_x(k, n)'},
+        'returns': 'paritylist',
+        'ensures': ['clen(pxs(result)) == m', 'cmaxabs(pxs(result)) <= n', 'not chaszero(pxs(result))',
+                    'forall(lambda j: implies(0 <= j and j < m, pbs(result)[j] == 0 or pbs(result)[j] == 1))'],
+    },
+    ('cnfgen/families/randomkxor.py', 'RandomKXOR'): {
+        'property': ['C13', 'C10'],
+        'params': {'k': 'int', 'n': 'int', 'm': 'int', 'seed': 'none', 'planted_assignments': 'any', 'formula_class': 'class:CNF'},
+        'ghost_params': {'a': 'asg'},
+        'raises': {'ValueError': 'n < 0 or m < 0 or k < 0 or k > n or m > navail_x(k, n)'},
+        'loops': {0: {'ghost_at_entry': {'S': 'pxs(_iter)', 'B': 'pbs(_iter)'},
+                      'inv': ['F._numvar == n', 'n >= 0', 'cmaxabs(F._clauses) <= n', 'not chaszero(F._clauses)',
+                              'cmaxabs(S) <= n', 'not chaszero(S)', 'clen(S) == m',
+                              'forall(lambda j: implies(0 <= j and j < m, B[j] == 0 or B[j] == 1))',
+                              # the satisfying assignments are the solutions of the linear system sampled so far
+                              'sat(a, F._clauses) == forall(lambda j: implies(0 <= j and j < _it, (count(a, cget(S, j)) % 2 == 1) == (B[j] == 1)))'],
+                      'modifies_objects': ['F'], 'modifies_fields': {'F': ['_clauses', '_numvar']}}},
+        'ensures': ['result._numvar == n', 'cmaxabs(result._clauses) <= n', 'not chaszero(result._clauses)',
+                    'sat(a, result._clauses) == forall(lambda j: implies(0 <= j and j < m, '
+                    '(count(a, cget(final("S"), j)) % 2 == 1) == (final("B")[j] == 1)))',
+                    'clen(final("S")) == m', 'k <= n', 'k >= 0', 'n >= 0', 'm >= 0'],
+    },
 }
